@@ -268,6 +268,11 @@ func checkOriginatedLinks(e *env, stable, churn []*link, items [][]fanItem) {
 			if wr, op, _, ok := tagOf(f); ok && wr < 100 && op >= opFrameAll {
 				continue
 			}
+			if l.lossy && f.Seq != c.nextSeq && f.Seq == 0 {
+				// the link's channel was replaced (transient failure of a custom transport): the
+				// fresh channel has its own counter and its own signature link id
+				c.nextSeq, c.n = 0, 0
+			}
 			if !c.check(i, f) {
 				return
 			}
